@@ -90,6 +90,11 @@ def gen_case(rnd, tier='quick'):
                 'in_other_wbs': rnd.random() < 0.5}]
         if rnd.random() < 0.3:
             ext.append({'id': rnd.randint(1, n), 'estimate': '30', 'succ': [rnd.randrange(n)], 'in_other_wbs': True, 'ext_pred': True})
+    if rnd.random() < 0.15:
+        # tasks outside the WBS that wait for members (another project, a detached task, a task removed from this WBS)
+        for _ in range(rnd.randint(1, 2)):
+            ext.append({'id': rnd.choice([200, rnd.randint(1, n)]), 'estimate': rnd.choice(['5', None]), 'succ': [],
+                        'succ_of': sorted(rnd.sample(range(n), rnd.randint(1, min(2, n)))), 'in_other_wbs': rnd.random() < 0.5})
     return {'kind': 'cp', 'tasks': tasks, 'links': links, 'externals': ext, 'ext_first': rnd.random() < 0.5}
 
 
@@ -159,6 +164,8 @@ def build(case):
             x.successors.append(exts[0])       # a chain of outside tasks in front of the member
         for i in e['succ']:
             objs[i].predecessors.append(x)
+        for i in e.get('succ_of') or []:
+            objs[i].successors.append(x)
         exts.append(x)
     if case.get('ext_first'):
         # the outside predecessors were declared first: they stand in front of the members in the predecessor lists
